@@ -709,7 +709,8 @@ theorem mods_withUm (r : Registry) (b : Bool) (um : KeyMap) : (r.withUm b um).mo
 /-- `Modules.add` appends the statement it was given as a new (sub)module and touches no other. -/
 theorem add_mods {r r' : Registry} {s : Stmt} (h : r.add s = .ok r') :
     ∀ m ∈ r'.mods, m ∈ r.mods ∨ m.stmt = s := by
-  unfold Registry.add at h
+  have h := (Registry.add_ok h).2
+  unfold Registry.addChecked at h
   dsimp only at h
   repeat' split at h
   all_goals first
